@@ -84,7 +84,8 @@ PROPS = {
              "classes interior/node/face/edge-corner/line/outside/source/near-source", props="props/C09.v", oracle_n=(80, 800)),
     "C10": P(GR, RAYS + INTERP, "proof",
              "Theorems on the generated free-step tracer: never runs out of fuel within the budget, first/last vertex, vertices inside "
-             "the hull, buffer index below max_step, RuntimeError iff the budget is exhausted, ValueError iff the end point is outside. "
+             "the hull, buffer index below max_step, RuntimeError iff the budget is exhausted, ValueError iff the end point is outside, consecutive stored "
+             "vertices at most one step apart and the last segment short unless the gradient vanishes there (finding F17, refuted unconditionally). "
              "Monotone time, straightness and 'never raises when homogeneous' are examined on the implementation.",
              "models homogeneous/layered/gradient/smoothed log-normal x end points interior/node/face/edge/line/source/near-source x "
              "step sizes x max_step", props="props/C10.v", oracle_n=(50, 400), api_corr="api"),
